@@ -109,6 +109,9 @@ def sensitivity(args):
         except Exception:
             print('%-6s %-4s skipped (engine not built)' % (m['id'], m['property']))
             continue
+        if m.get('equivalent'):
+            print('%-6s %-4s equivalent-within-property (not run): %s' % (m['id'], m['property'], m['equivalent']))
+            continue
         t0 = time.time()
         st, info = run_mutant(m)
         res[m['id']] = st
